@@ -52,7 +52,7 @@ func checkC06(c *Ctx) (int, error) {
 	c.ev.Level = "model_checking"
 	c.ev.Assumptions = []string{"gzip header presence patterns (all 32) x Latin-1/ASCII x level classes x Write/Flush histories (TLC, WriterModel) x Reset reuse, both directions (fastgo writes / standard library reads, and the reverse); payloads and header strings are seeded samples (incl. 0x80..0xFF and the maximal Extra field)",
 		"trailers are recomputed with hash/crc32 and hash/adler32 by the harness's own RFC 1950/1952 parser"}
-	if err := c.ModelCheck("WriterModel", "MC_WriterModel.cfg", 5*time.Minute); err != nil {
+	if err := c.writerModels(); err != nil {
 		return 0, err
 	}
 	maxLen := 2
